@@ -50,6 +50,17 @@ class Summary:
     benign: list[Effect] = field(default_factory=list)
 
 
+def _has_mutable_default(f: Func, p: str) -> bool:
+    a = f.node.args
+    pos = a.posonlyargs + a.args
+    pairs = list(zip(pos[len(pos) - len(a.defaults):], a.defaults)) + [(x, d) for x, d in zip(a.kwonlyargs, a.kw_defaults) if d is not None]
+    for x, d in pairs:
+        if x.arg == p:
+            return isinstance(d, (ast.Dict, ast.List, ast.Set, ast.ListComp, ast.DictComp, ast.SetComp)) or (
+                isinstance(d, ast.Call) and getattr(d.func, "id", getattr(d.func, "attr", "")) in ("dict", "list", "set", "defaultdict", "OrderedDict", "Counter"))
+    return False
+
+
 class Effects:
     def __init__(self, model: Model, benign_stores: set[str] | None = None) -> None:
         self.model = model
@@ -229,6 +240,11 @@ class Effects:
                         rr = roots(bound[p])
                         if rr:
                             note(rr, f"passes it to {cal.qname}, which mutates parameter `{p}` ({effs[0].how})", line, cal.qname)
+                    elif p.startswith("<"):
+                        # state that outlives the callee's call (a module-level table, a mutable default) outlives this call too
+                        note({p}, f"calls {cal.qname}, which writes {p[1:-1]} ({effs[0].how})", line, cal.qname)
+                    elif _has_mutable_default(cal, p):
+                        note({f"<mutable default `{p}` of {cal.qname}>"}, f"calls {cal.qname} without `{p}`, whose shared default object it mutates ({effs[0].how})", line, cal.qname)
                 return
             if isinstance(cal, Cls):
                 init = cal.find_method("__init__") or cal.find_method("__post_init__")
